@@ -45,14 +45,13 @@ func computeReservedNamesForScope(scope *js_ast.Scope, symbols ast.SymbolMap, na
 		}
 	}
 
-	// If there's a direct "eval" somewhere inside the current scope, continue
-	// traversing down the scope tree until we find it to get all reserved names
-	if scope.ContainsDirectEval {
-		for _, child := range scope.Children {
-			if child.ContainsDirectEval {
-				computeReservedNamesForScope(child, symbols, names)
-			}
-		}
+	// Continue traversing down the scope tree to get all reserved names. Symbols
+	// that must not be renamed can be declared in any nested scope: everything
+	// visible from a direct "eval", and every symbol that is referenced from
+	// inside the body of a "with" statement. A generated name must not collide
+	// with any of them.
+	for _, child := range scope.Children {
+		computeReservedNamesForScope(child, symbols, names)
 	}
 }
 
